@@ -2057,8 +2057,10 @@ class Cluster(object):
         for session in tuple(self.sessions):
             session.on_down(host)
 
-        for listener in self.listeners:
-            listener.on_down(host)
+        if was_up is not False:
+            # (a host expected to be down that was already reported down only gets its reconnector back)
+            for listener in self.listeners:
+                listener.on_down(host)
 
         self._start_reconnector(host, is_host_addition)
 
